@@ -128,6 +128,14 @@ where
                     let mut sorted_enforced_degree_bounds = enforced_degree_bounds.clone();
                     sorted_enforced_degree_bounds.sort();
 
+                    let highest_enforced_degree_bound =
+                        *sorted_enforced_degree_bounds.last().unwrap();
+                    if highest_enforced_degree_bound > supported_degree {
+                        return Err(Error::UnsupportedDegreeBound(
+                            highest_enforced_degree_bound,
+                        ));
+                    }
+
                     let lowest_shifted_power = max_degree
                         - sorted_enforced_degree_bounds
                             .last()
